@@ -153,6 +153,29 @@ theorem C04_substitution_needs_collision (doc doc' mso is is' : Cbor) (nss nss' 
   simp only [Option.some.injEq, Cbor.bytes.injEq] at m2
   rw [← w1, ← w2, m2]
 
+/-- SELECTIVE DISCLOSURE KEEPS THE CHECK: if a document passes the digest comparison against an MSO, so does any
+document that discloses, namespace by namespace, a subset of its items (any order, any subset of the
+namespaces) - what the device does when it releases only what was requested and permitted (C02).  The
+reader's acceptance never depends on an item that was withheld. -/
+theorem C04_subset_disclosure_passes (doc doc' mso is is' : Cbor) (nss nss' : List (Cbor × Cbor))
+    (h : digestsMatch doc mso = true)
+    (his : fget doc "issuerSigned" = some is) (hns : fget is "nameSpaces" = some (.map nss))
+    (his' : fget doc' "issuerSigned" = some is') (hns' : fget is' "nameSpaces" = some (.map nss'))
+    (hsub : ∀ ns items', (ns, Cbor.array items') ∈ nss' → ∃ items, (ns, Cbor.array items) ∈ nss ∧ ∀ x ∈ items', x ∈ items) :
+    digestsMatch doc' mso = true := by
+  unfold digestsMatch at h ⊢
+  simp only [his, hns, his', hns', List.all_eq_true] at h ⊢
+  intro e he
+  obtain ⟨ns, v⟩ := e
+  cases v with
+  | array items' =>
+    obtain ⟨items, hm, hin⟩ := hsub ns items' he
+    have h1 := h (ns, .array items) hm
+    simp only [List.all_eq_true] at h1 ⊢
+    intro x hx
+    exact h1 x (hin x hx)
+  | _ => rfl
+
 end WireFacts
 
 section Report
